@@ -6,8 +6,8 @@ package tacquito
 // rules, used by C06 (loop level), C07-L1, C08, C19, C20.
 
 import (
-	dto "github.com/prometheus/client_model/go"
 	"github.com/prometheus/client_golang/prometheus"
+	dto "github.com/prometheus/client_model/go"
 )
 
 // native reading of the in-flight gauges (the engine intercepts vpMetric by name and returns
@@ -42,20 +42,20 @@ type vpInvoke struct {
 
 // vpWorld is the harness-side ghost model of one connection.
 type vpWorld struct {
-	conn     *vpConn
-	invokes  []vpInvoke
-	nextID   int
-	maxSeq   map[uint32]int // per session: highest sequence number received or sent
-	nextHid  map[uint32]int // per session: continuation registered by the last reply
-	replies  int            // number of handler replies issued
-	mode     int            // reply policy
-	gauge    string         // gauge to watch (C20)
-	g0, gmin int
-	wrote    []int // number of packets on the wire after each handler invocation
-	restarts []bool
+	conn         *vpConn
+	invokes      []vpInvoke
+	nextID       int
+	maxSeq       map[uint32]int // per session: highest sequence number received or sent
+	nextHid      map[uint32]int // per session: continuation registered by the last reply
+	replies      int            // number of handler replies issued
+	mode         int            // reply policy
+	gauge        string         // gauge to watch (C20)
+	g0, gmin     int
+	wrote        []int // number of packets on the wire after each handler invocation
+	restarts     []bool
 	scriptSecond bool // the second invocation follows a script too
 	finishSecond bool // ... which finishes the session instead of registering a continuation
-	setup    int // number of leading invocations that follow a fixed script (reply + continuation)
+	setup        int  // number of leading invocations that follow a fixed script (reply + continuation)
 }
 
 func newVPWorld(conn *vpConn) *vpWorld {
@@ -79,7 +79,7 @@ type vpHandler struct {
 }
 
 const (
-	vpReplyAny      = 0 // any reply kind
+	vpReplyAny       = 0 // any reply kind
 	vpReplyNoRestart = 1
 )
 
@@ -310,7 +310,7 @@ func vpH_C08_three__2(c int) {
 	conn := newVPConn(in)
 	conn.log = &vpEventLog{}
 	w := newVPWorld(conn)
-	w.setup = 1        // first packet: reply + continuation
+	w.setup = 1               // first packet: reply + continuation
 	w.finishSecond = vpBool() // second packet: finish the session (no continuation) or go on
 	w.scriptSecond = true
 	vpRunLoop(in, w)
